@@ -64,6 +64,7 @@ func c16(c *core.Check) {
 	c16FixedBoxes(c)
 	c16WrapperProperties(c)
 	c16ZIndexPositioned(c)
+	c16InsertPositions(c)
 
 	dsc := p.Method("html/document", "drawContext", "drawStackingContext")
 	if dsc == nil {
